@@ -14,6 +14,8 @@ Property theorems over `PdModel.Determinism`:
   `projectname_counterexample_old`, `projectname_old_depends_on_enumeration`.
 * `keyed_writes_invariant` — static files written from an unsorted template listing.
 * `rerun_idempotent`, `output_independent_of_old_content` — the output directory.
+* `buildtime_function_of_inputs`, `buildtime_epoch_zero`, … — the footer time is a function of
+  (SOURCE_DATE_EPOCH, --buildtime) whenever either is set.
 -/
 import PdModel.Determinism
 
@@ -868,5 +870,30 @@ theorem output_independent_of_old_content (before : List (Name × Nat)) (link : 
             rw [hlb] at this; simp at this
           · rw [ha] at h; simp at h
           · simp at h; exact e0 h.1
+
+/-! ## the build time -/
+
+/-- **The time in the footer is a function of (SOURCE_DATE_EPOCH, --buildtime) only, whenever either
+is set** — whatever the clock says, and whatever the value (`0` included). -/
+theorem buildtime_function_of_inputs (now₁ now₂ : Int) (env : EnvEpoch) (opt : OptTime)
+    (hset : env ≠ .unset ∨ opt ≠ .notGiven) : buildTime now₁ env opt = buildTime now₂ env opt := by
+  cases env <;> cases opt <;> simp_all [buildTime]
+
+example : buildTime 1727481600 (.value 0) .notGiven = buildTime 1727481603 (.value 0) .notGiven :=
+  buildtime_function_of_inputs _ _ _ _ (Or.inl (by simp))
+
+/-- a set SOURCE_DATE_EPOCH is used as it is: the boundary value 0 is the epoch, not "unset" -/
+theorem buildtime_epoch_used (now n : Int) : buildTime now (.value n) .notGiven = .time n := rfl
+
+theorem buildtime_epoch_zero (now : Int) : buildTime now (.value 0) .notGiven = .time 0 := rfl
+
+/-- `--buildtime` wins over the variable -/
+theorem buildtime_option_wins (now n t : Int) : buildTime now (.value n) (.time t) = .time t := rfl
+
+/-- honest converse: with neither set the footer shows the clock (this is what C18 does not promise) -/
+theorem buildtime_clock_when_unset (now : Int) : buildTime now .unset .notGiven = .time now := rfl
+
+/-- the same refusal in every run: a variable that is not a number is an error whatever else is given -/
+theorem buildtime_notInt_refused (now : Int) (opt : OptTime) : buildTime now .notInt opt = .exitError := rfl
 
 end Determinism
